@@ -56,6 +56,25 @@ func pkcs7decode(buf []byte, _ int) []byte {
 	return buf[:n]
 }
 
+// pkcs7valid reports whether buf is a whole number of blocks that ends in
+// well-formed PKCS7 padding.
+func pkcs7valid(buf []byte, blockSize int) bool {
+	n := len(buf)
+	if n == 0 || n%blockSize != 0 {
+		return false
+	}
+	pad := int(buf[n-1])
+	if pad == 0 || pad > blockSize {
+		return false
+	}
+	for _, b := range buf[n-pad:] {
+		if int(b) != pad {
+			return false
+		}
+	}
+	return true
+}
+
 // encryptOverhead returns the maximum possible overhead of encryption by version
 func encryptOverhead(vsn encryptionVersion) int {
 	switch vsn {
@@ -192,6 +211,11 @@ func decryptPayload(keys [][]byte, msg []byte, data []byte) ([]byte, error) {
 		if err == nil {
 			// Remove the PKCS7 padding for vsn 0
 			if vsn == 0 {
+				// The version byte is not authenticated, so the plaintext
+				// is not necessarily padded: validate before stripping.
+				if !pkcs7valid(plain, aes.BlockSize) {
+					return nil, fmt.Errorf("invalid PKCS7 padding")
+				}
 				return pkcs7decode(plain, aes.BlockSize), nil
 			} else {
 				return plain, nil
